@@ -180,4 +180,30 @@ def expectedMemOps : Shape → List CgOp
 
 def codegenMatches (k : Kind) : Bool := (codegenOps k).filter isMemOp == expectedMemOps (shapeOf k)
 
+/-- effectful operations of the reference interpreter (obtaining a raw pointer,
+offsetting one and interning a constant's address change no memory) -/
+def isEvalEffect : EvOp → Bool
+  | .rawPtr | .offsetBy | .newPointer => false
+  | _ => true
+
+/-- what the model's machine (`Exec.stepInstr`) does for a shape, in the
+interpreter's vocabulary: `Call` pushes a frame and allocates FRESH stack slots
+for the callee, `Return` pops it; the string and literal initialisers write
+into fresh call-local memory; `Write` / `Read` / `Copy` are one store / load /
+block copy; clone, eq and drop glue and runtime functions are calls into Rust
+code; every other kind touches no memory at all -/
+def expectedEvalOps : Shape → List EvOp
+  | .ret => [.popFrame]
+  | .call => [.pushFrame, .alloc]
+  | .callRt => [.callRt]
+  | .initString => [.alloc, .ptrWrite]
+  | .initBytes => [.alloc, .write]
+  | .write => [.write]
+  | .read => [.read]
+  | .copy => [.copy]
+  | .clone | .eq | .drop => [.callFnPtr]
+  | _ => []
+
+def evalMatches (k : Kind) : Bool := (evalOps k).filter isEvalEffect == expectedEvalOps (shapeOf k)
+
 end RotoV.Conc.Classify
